@@ -65,6 +65,11 @@ type FaultMenu struct {
 	PCTSteps   int
 }
 
+// Deadlocked reports whether the run ended with a caller blocked for ever. A run
+// that ends with only goroutines of the implementation itself still parked
+// (a pump, a janitor) is not one: every call has returned.
+func Deadlocked(out *simrt.Outcome) bool { return out.Stuck && out.ClientsAlive > 0 }
+
 // ForceStrategy, when >= 0, replaces the strategy draw of DrawConfig (0-1 random
 // walk, 2-3 sticky, 4-5 partial-order sampling, 6-9 PCT). It exists for the
 // strategy comparison of tools/strategy_eval.py (VERIF_STRATEGY) and is never set
